@@ -70,6 +70,42 @@ class RefSeq:
         return '/'.join('-' if x is None else '%d:%s' % (len(x), ','.join(map(str, x))) for x in self.objs)
 
 
+class RefArr(RefSeq):
+    """std::array<T,N>: fixed length; `{}` zeros, `{v...}` padded with zeros; no push/resize (no-ops here)"""
+
+    def __init__(self, n):
+        RefSeq.__init__(self, None)
+        self.n = n
+
+    def apply(self, name, a):
+        o = self.objs
+        s = a[0]
+        if name in ('ctor', 'ctorN'):
+            if o[s] is not None: return False, ''
+            o[s] = [0] * self.n
+            return True, ''
+        if name == 'ctorV':
+            if o[s] is not None: return False, ''
+            o[s] = (list(a[1:]) + [0] * self.n)[:self.n]
+            return True, ''
+        if name in ('push', 'resize'):
+            return o[s] is not None, ''
+        if name == 'pushAt':
+            return (o[s] is not None and a[1] < len(o[s])), ''
+        return RefSeq.apply(self, name, a)
+
+
+SVEC_CAP = 4
+ARR_N = 3
+
+
+def make_ref(kind):
+    if kind == 'vec': return RefSeq(None)
+    if kind == 'svec': return RefSeq(SVEC_CAP)
+    if kind == 'arr': return RefArr(ARR_N)
+    raise ValueError(kind)
+
+
 def parse_ops(s):
     ops = []
     if s in ('', '[]'):
@@ -84,8 +120,8 @@ def fmt_ops(ops):
     return ';'.join(':'.join([n] + [str(x) for x in a]) for n, a in ops) if ops else '[]'
 
 
-def oracle_seq(ops, cap=None):
-    r = RefSeq(cap)
+def oracle_seq(ops, kind):
+    r = make_ref(kind)
     out = []
     for n, a in ops:
         valid, note = r.apply(n, a)
@@ -112,18 +148,18 @@ def req_fields(req):
     return f.get('kind'), f.get('elem', 'int'), parse_ops(f.get('ops', ''))
 
 
-def sizes_along(ops, cap=None):
+def sizes_along(ops, kind='vec'):
     """yields (name, args, spec state before the op) — the reference run, used to classify operations"""
-    r = RefSeq(cap)
+    r = make_ref(kind)
     for n, a in ops:
         before = [None if x is None else list(x) for x in r.objs]
         yield n, a, before
         r.apply(n, a)
 
 
-def has_uninit_growth(ops, cap=None):
+def has_uninit_growth(ops):
     """a sized construction with n > 0 or a resize above the current size (new elements are never initialised)"""
-    for n, a, st in sizes_along(ops, cap):
+    for n, a, st in sizes_along(ops, 'vec'):
         if n == 'ctorN' and st[a[0]] is None and a[1] > 0:
             return True
         if n == 'resize' and st[a[0]] is not None and a[1] > len(st[a[0]]):
@@ -158,10 +194,41 @@ def has_alias_push(ops):
     return any(n == 'pushAt' for n, a in ops)
 
 
+def svec_oversize_ctor(ops):
+    """static_vector(n) with n > Capacity"""
+    return any(n == 'ctorN' and st[a[0]] is None and a[1] > SVEC_CAP for n, a, st in sizes_along(ops, 'svec'))
+
+
+def svec_grow_after_shrink(ops):
+    """a resize that grows an object (within the capacity) after some object has been shrunk (resize down or
+    assignment from a shorter source): the re-exposed cells keep their old values"""
+    shrunk = False
+    for n, a, st in sizes_along(ops, 'svec'):
+        o = st[a[0]]
+        if o is None:
+            continue
+        if n == 'resize' and a[1] <= SVEC_CAP:
+            if a[1] > len(o) and shrunk:
+                return True
+            if a[1] < len(o):
+                shrunk = True
+        if n == 'assign' and st[a[1]] is not None and len(st[a[1]]) < len(o):
+            shrunk = True
+    return False
+
+
+def svec_growing_resize(ops):
+    return any(n == 'resize' and st[a[0]] is not None and len(st[a[0]]) < a[1] <= SVEC_CAP for n, a, st in sizes_along(ops, 'svec'))
+
+
 def in_domain(kind, ops):
     """history lies in the hypothesis domain of the Lean refinement / ledger theorems of its kind"""
     if kind == 'vec':
         return not has_uninit_growth(ops) and not has_alias_push(ops) and not any(n == 'ctorN' for n, a in ops)
+    if kind == 'svec':
+        return not svec_oversize_ctor(ops) and not svec_growing_resize(ops)
+    if kind == 'arr':
+        return True
     return False
 
 
@@ -176,6 +243,8 @@ KNOWN_PREDICATES = {
     'vec_uninit_growth': _pred('vec', has_uninit_growth),
     'vec_zero_sized_dropped': _pred('vec', has_zero_sized_dropped),
     'vec_alias_push': _pred('vec', has_alias_push),
+    'svec_oversize_ctor': _pred('svec', svec_oversize_ctor),
+    'svec_grow_after_shrink': _pred('svec', svec_grow_after_shrink),
 }
 
 # ----------------------------------------------------------------------------------------------
@@ -204,7 +273,7 @@ def dead_ops(s, other_live, t, sized, variadic):
     return ops
 
 
-def enum_histories(L, two, cap=None, resizes=(0, 1, 3, 6), sized=(0, 2, 5), variadic=(3,)):
+def enum_histories(L, two, kind='vec', resizes=(0, 1, 3, 6), sized=(0, 2, 5), variadic=(3,), nopush=False):
     """all histories of length exactly L over the reduced alphabet in which every operation is applicable
     (prefixes are observed too: the state is printed after every step)"""
     def rec(ref, t, acc):
@@ -221,17 +290,19 @@ def enum_histories(L, two, cap=None, resizes=(0, 1, 3, 6), sized=(0, 2, 5), vari
                 cands += dead_ops(s, other and two, t, sized, variadic)
             else:
                 cands += live_ops(s, len(o), other, t, resizes, two)
+        if nopush:
+            cands = [c for c in cands if c[0] not in ('push', 'pushAt', 'resize')]
         for n, a in cands:
-            r2 = RefSeq(ref.cap)
+            r2 = make_ref(kind)
             r2.objs = [None if x is None else list(x) for x in ref.objs]
             r2.apply(n, a)
             acc.append((n, a))
             yield from rec(r2, t + 1, acc)
             acc.pop()
-    yield from rec(RefSeq(cap), 0, [])
+    yield from rec(make_ref(kind), 0, [])
 
 
-def rand_history(rng, L, cap=None, maxn=9, kind='vec'):
+def rand_history(rng, L, cap=None, maxn=9, vmax=5):
     ref = RefSeq(cap)
     ops = []
     for t in range(L):
@@ -243,7 +314,7 @@ def rand_history(rng, L, cap=None, maxn=9, kind='vec'):
             other = ref.objs[1 - s] is not None
             if c < 0.3: op = ('ctor', [s])
             elif c < 0.5: op = ('ctorN', [s, rng.randrange(0, maxn)])
-            elif c < 0.7: op = ('ctorV', [s] + [rng.randrange(1, 99) for _ in range(rng.randrange(2, 5))])
+            elif c < 0.7: op = ('ctorV', [s] + [rng.randrange(1, 99) for _ in range(rng.randrange(2, vmax + 1))])
             elif other: op = ('copy', [s, 1 - s])
             else: op = ('ctor', [s])
         else:
@@ -263,7 +334,7 @@ def rand_history(rng, L, cap=None, maxn=9, kind='vec'):
     return ops
 
 
-def rand_domain_history(rng, L, cap=None):
+def rand_domain_history(rng, L, cap=None, vmax=5):
     """random history inside the theorem domain: no sized construction, no growing resize, no aliasing push"""
     ref = RefSeq(cap)
     ops = []
@@ -275,7 +346,7 @@ def rand_domain_history(rng, L, cap=None):
             c = rng.random()
             other = ref.objs[1 - s] is not None
             if c < 0.4: op = ('ctor', [s])
-            elif c < 0.7: op = ('ctorV', [s] + [rng.randrange(1, 99) for _ in range(rng.randrange(2, 5))])
+            elif c < 0.7: op = ('ctorV', [s] + [rng.randrange(1, 99) for _ in range(rng.randrange(2, vmax + 1))])
             elif other: op = ('copy', [s, 1 - s])
             else: op = ('ctor', [s])
         else:
@@ -296,12 +367,17 @@ def rand_domain_history(rng, L, cap=None):
 HARNESS = 'h_c19'
 
 
-def cases_for(kind, elem, ops, tags, cap=None):
+def fix_arr(ops):
+    """element writes of the enumerator use the vector size; an array always has ARR_N elements"""
+    return [(n, [a[0], min(a[1], ARR_N - 1)] + a[2:]) if n in ('write', 'read') else (n, a) for n, a in ops]
+
+
+def cases_for(kind, elem, ops, tags):
     """spec judgement (+ model inside the theorem domain) and, outside the domain, a pure correspondence case"""
     req = 'hist kind=%s elem=%s ops=%s' % (kind, elem, fmt_ops(ops))
     dom = in_domain(kind, ops)
     nt = len(ops) >= 3
-    orc = oracle_seq(ops, cap)
+    orc = oracle_seq(ops, kind)
     yield Case(req, HARNESS, dom=dom, oracle=orc, model=dom, nontrivial=nt, tags=list(tags) + ['kind=' + kind, 'elem=' + elem, 'dom' if dom else 'off-dom', 'len=%d' % min(len(ops), 8) if len(ops) <= 8 else 'len>8'], cmp=cmp_answers)
     if not dom:
         yield Case(req, HARNESS, dom=False, oracle=None, model=True, nontrivial=nt, tags=['correspondence-only', 'kind=' + kind], cmp=cmp_answers)
@@ -328,6 +404,23 @@ def gen(tier, rng):
         L = rng.choice([6, 7, 12, 30, 80, 200])
         yield from cases_for('vec', rng.choice(['int', 'double']), rand_history(rng, L), ['random'])
         yield from cases_for('vec', rng.choice(['int', 'double']), rand_domain_history(rng, L), ['random-domain'])
+    # utl::static_vector<T,4> ---------------------------------------------------------------------
+    for L in ([5] if quick else [5, 6]):
+        for ops in enum_histories(L, two=False, kind='svec', resizes=(0, 1, 3, 4, 6), sized=(0, 2, 4, 7), variadic=(2, 4)):
+            yield from cases_for('svec', 'int', ops, ['exhaustive-1obj'])
+    n2 = 0
+    for ops in enum_histories(4 if quick else 5, two=True, kind='svec', resizes=(0, 2, 5), sized=(3, 7), variadic=(3,)):
+        n2 += 1
+        yield from cases_for('svec', 'double' if n2 % 2 else 'int', ops, ['exhaustive-2obj'])
+    for k in range(300 if quick else 4000):
+        L = rng.choice([6, 7, 12, 30, 80, 200])
+        yield from cases_for('svec', rng.choice(['int', 'double']), rand_history(rng, L, cap=SVEC_CAP, maxn=7, vmax=4), ['random'])
+        yield from cases_for('svec', rng.choice(['int', 'double']), rand_domain_history(rng, L, cap=SVEC_CAP, vmax=4), ['random-domain'])
+    # utl::array<T,3> -----------------------------------------------------------------------------
+    n2 = 0
+    for ops in enum_histories(4 if quick else 6, two=True, kind='arr', resizes=(), sized=(), variadic=(2, 3), nopush=True):
+        n2 += 1
+        yield from cases_for('arr', 'double' if n2 % 2 else 'int', ops, ['exhaustive-2obj'])
 
 
 WITNESSES = [
@@ -335,6 +428,8 @@ WITNESSES = [
     ('vec', 'int', 'ctorN:0:3'),
     ('vec', 'int', 'ctorN:0:0;destroy:0'),
     ('vec', 'int', 'ctor:0;push:0:10;push:0:11;push:0:12;push:0:13;pushAt:0:0'),
+    ('svec', 'int', 'ctorN:0:7'),
+    ('svec', 'int', 'ctor:0;push:0:1;push:0:2;push:0:3;resize:0:1;resize:0:3'),
 ]
 
 RULE = ('histories over {ctor, ctorN, ctorV, copy, assign(other|self), push, pushAt (push_back(x[i])), resize, write, read, destroy} on object '
